@@ -403,9 +403,11 @@ func checkConv(p *Prog, r *Report, pkg, prop string) {
 		ruleNormaliserConsts(p, r, "R05.n", prop)
 	}
 	if pkg == "panos" || pkg == "nsx" {
+		ruleRewriteDiscipline(p, r, "R-FLAG", prop, map[string]bool{pkg: true}, map[string]int{"panos": 5, "nsx": 2}[pkg])
 		ruleComparatorsSymmetric(p, r, map[string]bool{pkg: true}, map[string]int{"panos": 9, "nsx": 1}[pkg])
 		ruleSides(p, r, "R-SIDE", prop, map[string]bool{pkg: true}, map[string]int{"panos": 17, "nsx": 8}[pkg])
 	}
+	ruleMustCalls(p, r, "R-PH", prop)
 	ruleCommandsOnlyGrow(p, r, pkg)
 	ruleStickyState(p, r, prop, map[string]bool{pkg: true}, map[string]int{"panos": 1, "nsx": 1, "linux": 2}[pkg])
 	ruleCutsetMisuse(p, r, map[string]bool{pkg: true})
